@@ -14,6 +14,7 @@ func init() {
 	vk.Register("C10", "list", runList)
 	vk.Register("C10", "ring", runRing)
 	vk.Register("C10", "ringbig", runRing)
+	vk.Register("C10", "listbig", runListBig)
 }
 
 func genCtor(t *rapid.T) string { return rapid.SampledFrom([]string{"zero", "new"}).Draw(t, "ctor") }
@@ -318,6 +319,64 @@ func TestC10RingBig(t *testing.T) {
 		}
 		if i%37 == 5 {
 			h.Sample(c, c.Ops[0].A >= 1024)
+		}
+	}
+	h.MergeTally(tl)
+}
+
+// TestC10ListBig: stale cursors far behind the cut of one long list
+// (listbig.go): lengths around powers of two up to 2^20+3 (thorough: 2^22+3),
+// cut at the front, one element in, the middle or near the end, by Truncate or
+// Clear, three ways of building the list.
+func TestC10ListBig(t *testing.T) {
+	h := vk.Start(t, "C10", "listbig")
+	slot := h.Slot()
+	tl := vk.NewTally()
+	rng := h.RNG("listbig")
+	top := h.Pick(20, 22)
+	var cases []ListBigCase
+	builds := []string{"add1", "addv", "push"}
+	for k := 6; k <= top; k += 2 {
+		if k > 16 && k < top {
+			k = top - 2 // 2^18 and then the top size
+			if k%2 == 1 {
+				k++
+			}
+		}
+		for _, d := range []int{-1, 3} {
+			n := 1<<k + d
+			for _, cut := range []int{0, 1, rng.Intn(n/2 + 1), n - 1<<(k-1) - 2} {
+				cases = append(cases, ListBigCase{N: n, Cut: cut, Build: builds[rng.Intn(3)]})
+			}
+			cases = append(cases, ListBigCase{N: n, Clear: true, Build: builds[rng.Intn(3)]})
+		}
+	}
+	// the top size itself, every build, cut at the very front and Clear
+	for _, b := range builds {
+		n := 1<<top + 3
+		cases = append(cases, ListBigCase{N: n, Cut: rng.Intn(3), Build: b}, ListBigCase{N: n + rng.Intn(1000), Clear: true, Build: b})
+	}
+	for i, c := range cases {
+		if h.Failed() {
+			break
+		}
+		slot.Enter(c)
+		o := &vk.Obs{}
+		msg := vk.Guard(func() string { return runListBig(c, o) })
+		slot.Leave()
+		if msg != "" {
+			p := h.Fail(c, msg)
+			t.Fatalf("VK-VIOLATION property=C10 leg=listbig replay=%s\n%s", p, msg)
+		}
+		tl.Evals++
+		for _, cl := range o.Classes() {
+			tl.Classes[cl]++
+		}
+		if o.NT {
+			tl.NT++
+		}
+		if i%7 == 3 {
+			h.Sample(c, o.NT)
 		}
 	}
 	h.MergeTally(tl)
